@@ -419,7 +419,10 @@ def _iter_source_vars(fn, lp):
         if (l, len(op["place"]["proj"])) in seen:
             continue
         seen.add((l, len(op["place"]["proj"])))
-        if l in fn.names and not op["place"]["proj"] and fn.names[l] != "iter":
+        lty = fn.local_ty(l)["s"].lstrip("&").replace("mut ", "")
+        is_iterator_var = lty.startswith(("std::vec::IntoIter", "std::slice::Iter", "std::vec::Drain", "std::iter::", "std::collections::hash_map::Iter",
+                                          "std::collections::hash_map::IntoIter", "std::collections::btree_map::Iter", "std::collections::btree_map::IntoIter"))
+        if l in fn.names and not op["place"]["proj"] and fn.names[l] != "iter" and not is_iterator_var:
             out |= fn.vars_of_operand(op)
             continue
         for (kind, bb, idx, place, payload) in fn.defs.get(l, ()):
